@@ -154,14 +154,31 @@ def run_case(case):
     fe = case['frontend']
     sim = AppSim(fe, registerer=NfdRegister() if fe == 'v2' else None, local=case.get('local', True))
     try:
-        _run(sim, fe, case, r)
+        if case.get('reconnect'):
+            # an earlier connection, in another event loop, on which two registrations ran concurrently; then the same
+            # application object is run again in a fresh loop (the reconnect pattern: run_forever() called again)
+            plain_send = sim.face.send
+            first = {'frontend': fe, 'local': case.get('local', True), 'calls': [
+                {'op': 'register', 'prefix': [[8, '6f6c64'], [8, bytes([0x30 + i]).hex()]], 'reply': 'ok-body', 'latency': 1,
+                 'with_func': False} for i in range(2)]}
+            _run(sim, fe, first, r, tag='first-connection/')
+            err = sim.finish()
+            if err:
+                r.bad(f'C17/{fe}/first-connection/main-loop', err)
+            sim.face.send = plain_send
+            sim.face.sent.clear()
+            sim.renew_loop()
+        if not r.violations:
+            _run(sim, fe, case, r)
     finally:
         sim.finish()
         sim.close()
+    if case.get('reconnect'):
+        r.classes = tuple(r.classes or ()) + ('second-connection-in-a-fresh-loop',)
     return r
 
 
-def _run(sim, fe, case, r):
+def _run(sim, fe, case, r, tag=''):
     loop = sim.vl.loop
     face = sim.face
     orig_send = face.send
@@ -309,6 +326,7 @@ def _call(fe):
 
 def _case(fe):
     return st.fixed_dictionaries({'frontend': st.just(fe), 'local': st.sampled_from([True, True, False]),
+                                  'reconnect': st.sampled_from([False, False, True]),
                                   'calls': st.lists(_call(fe), min_size=1, max_size=6,
                                                     unique_by=lambda c: str(c['prefix']))})
 
@@ -329,8 +347,10 @@ def _grid(tier):
             yield {'frontend': fe, 'local': local, 'calls': [{'op': 'register', 'prefix': [[8, '6c']], 'reply': 'ok-body', 'latency': 0,
                                                                'with_func': False}]}
         for n in (2, 4, 6):
-            yield {'frontend': fe, 'calls': [{'op': 'register', 'prefix': [[8, '70'], [8, bytes([0x30 + i]).hex()]], 'reply': 'ok-body',
-                                             'latency': 0, 'with_func': False} for i in range(n)]}
+            for rc in (False, True):
+                yield {'frontend': fe, 'reconnect': rc,
+                       'calls': [{'op': 'register', 'prefix': [[8, '70'], [8, bytes([0x30 + i]).hex()]], 'reply': 'ok-body',
+                                  'latency': 0, 'with_func': False} for i in range(n)]}
 
 
 # ---- routes declared before connecting ----------------------------------------------------------------------------------
